@@ -1109,7 +1109,8 @@ mod repr {
 
     fn to_f32_small(dword: DoubleWord) -> Approximation<f32, Sign> {
         let f = dword as f32;
-        if f.is_infinite() {
+        // a value rounded up to 2^DWORD_BITS (or to infinity) would saturate in the cast back
+        if f.is_infinite() || f == DoubleWord::MAX as f32 {
             return Inexact(f, Sign::Positive);
         }
 
@@ -1124,6 +1125,10 @@ mod repr {
     fn to_f64_small(dword: DoubleWord) -> Approximation<f64, Sign> {
         const_assert!((DoubleWord::MAX as f64) < f64::MAX);
         let f = dword as f64;
+        // a value rounded up to 2^DWORD_BITS would saturate in the cast back
+        if f == DoubleWord::MAX as f64 {
+            return Inexact(f, Sign::Positive);
+        }
         let back = f as DoubleWord;
 
         match back.partial_cmp(&dword).unwrap() {
